@@ -326,6 +326,26 @@ pub fn run(ctx: &Ctx, replay: Option<&J>) -> i32 {
     }
     let ls = lists(!ctx.quick());
     par_for_ctx(ctx, ls.len(), |i| check_list(ctx, &ls[i]));
+    // `print` as the callback (kept out of the big pool because it writes to stderr): a handful of lists
+    {
+        let mut sess = Session::new();
+        for l in ["[]", "[1, 2]", "[\"a{}\", \"b{}\"]", "[\"x\"]", "[null, [1]]"] {
+            for (a, b) in [
+                (format!("{} via print", l), format!("map({}, print)", l)),
+                (format!("{} where print", l), format!("filter({}, print)", l)),
+                (format!("{} into print", l), format!("print({})", l)),
+                (format!("every({}, print)", l), format!("every({} via (x => x), print)", l)),
+            ] {
+                let (oa, ob) = (sess.run(&a), sess.run(&b));
+                ctx.count(2);
+                ctx.nontrivial(&a);
+                ctx.outcome("print-callback");
+                if !same(&oa, &ob) {
+                    ctx.violation(Violation { kind: "via-map".into(), class: "print-callback".into(), input: format!("{}  <=>  {}", a, b), expected: ob.cmp_key(), observed: oa.cmp_key(), case: json!({"a": a, "b": b}) });
+                }
+            }
+        }
+    }
     // the left operand written in different ways (a literal, a variable, the result of a built-in -
     // in particular `range` with integer and non-integer bounds): the operator form, the built-in form
     // and the form through a variable must agree whatever produced the list
